@@ -340,6 +340,7 @@ struct Sched
   bool spurious = false;
   bool chargeSwitch = false;
   uint64_t yieldSpin = 0;
+  uint64_t deviationNs = 0; // virtual time advanced by *chosen* TIME options (runnable threads were slow)
 };
 Sched S;
 __thread Thr *tl_self = nullptr;
@@ -658,6 +659,8 @@ void scheduleFrom(Thr *self)
     {
       if (timeOpt && pick == ne)
       {
+        if (minD > S.monoNs)
+          S.deviationNs += minD - S.monoNs;
         advanceTo(minD);
         if (mcint_ext_on_time)
           mcint_ext_on_time(S.monoNs);
@@ -1042,6 +1045,7 @@ uint64_t mc_now_ns() { return S.monoNs; }
 uint64_t mc_wall_ns() { return wallNow(); }
 void mc_advance_wall(int64_t d) { S.wallOffsetNs += d; }
 uint64_t mc_step() { return S.globalOps; }
+uint64_t mc_deviation_ns() { return S.deviationNs; }
 bool mc_active() { return S.inChild; }
 int mc_tid() { return mcint_tid(); }
 void mc_yield_point(const char *what) { mcint_point(what); }
@@ -1986,17 +1990,17 @@ int mc_main(int argc, char **argv, const char *part, const std::vector<McScenari
     G->maxPoints = G->maxSteps = 0;
     double scStart = real_now_s();
     // share remaining time evenly among remaining scenarios
-    size_t remainingSc = 0;
+    double remainingW = 0;
     {
       int k = 0;
       for (auto &s2 : scenarios)
       {
         ++k;
         if (k >= si && (only.empty() || s2.name == only))
-          remainingSc++;
+          remainingW += s2.weight;
       }
     }
-    double budget = (deadlineS - (scStart - tStart)) / double(remainingSc ? remainingSc : 1);
+    double budget = (deadlineS - (scStart - tStart)) * sc.weight / (remainingW > 0 ? remainingW : 1);
     if (budget < 5)
       budget = 5;
     double deadlineAt = scStart + budget;
